@@ -93,8 +93,9 @@ TEXT = {
           "applySend/contract-receive regeneration compare, the four checks of accountBlockTransactionVerifier.all) as a "
           "pure decision function over the block's fields and explicit context facts; kernel-checked: every accepted "
           "block satisfies the property's sentence ValidBlock (verify_sound, for all blocks and all contexts), any "
-          "mutation is rejected or valid again (mutation_closed), honest user send / user receive / contract receive "
-          "are accepted (non-vacuity), the check order of the model equals the order extracted from the tree's AST. "
+          "mutation is rejected or valid again (mutation_closed), acceptance is exactly ValidBlock plus an explicit list of "
+          "admission conditions (verify_complete, verify_exact; honest user send / user receive / contract receive "
+          "instances for non-vacuity), the check order of the model equals the order extracted from the tree's AST. "
           "Tied to the code by the verify stream: ~300 candidates per base block on real node states, verdict and "
           "reason (52 distinct reasons reached) compared with the model, and a statement-only monitor on every "
           "accepted candidate.",
